@@ -2,6 +2,7 @@ package types
 
 import (
 	fmt "fmt"
+	sdk "github.com/cosmos/cosmos-sdk/types"
 
 	"gopkg.in/yaml.v2"
 )
@@ -45,6 +46,9 @@ func validateDenom(v interface{}) error {
 
 	if len(denom) == 0 {
 		return fmt.Errorf("denom cannot be empty")
+	}
+	if err := sdk.ValidateDenom(denom); err != nil {
+		return err
 	}
 
 	return nil
